@@ -257,7 +257,7 @@ fn twin_name(d: &FmtDesc) -> String {
         }
     }
     let n: &'static str = match d.name {
-        "sepx_hex_p" => "twin_hex_p",
+        "sepx_hex_p" | "sepx_hex_p_exp_i" | "sepx_hex_p_exp_ilt" => "twin_hex_p",
         "sepx_hex_hexexp" => "twin_hex_hexexp",
         "sepx_dec_hexexp" => "twin_dec_hexexp",
         "sepx_prefix_suffix" => "twin_prefix_suffix",
